@@ -146,14 +146,15 @@ func registerCrashEngine() {
 }
 
 // childServer: a real DVID server process on the given directory.  Line protocol on stdin/stdout:
-//   H <method> <url> <bodyhex|->     -> "<code> <bodyhex|->"
-//   DUMP                             -> manager dump with newlines as '|'
-//   WRITES                           -> number of store writes so far
-//   CRASHAT <n> / CRASHAFTER <n>     -> arm a crash point relative to the absolute write counter
-//   MUTID <uuid>                     -> a new mutation id of the repo
-//   SETTLE <uuid> <name>             -> block until the instance's background updates are done
-//   SHUTDOWN                         -> clean stop (datastore.Shutdown; storage.Shutdown), exit 0
-//   EXIT                             -> abrupt exit without any shutdown, exit 0
+//
+//	H <method> <url> <bodyhex|->     -> "<code> <bodyhex|->"
+//	DUMP                             -> manager dump with newlines as '|'
+//	WRITES                           -> number of store writes so far
+//	CRASHAT <n> / CRASHAFTER <n>     -> arm a crash point relative to the absolute write counter
+//	MUTID <uuid>                     -> a new mutation id of the repo
+//	SETTLE <uuid> <name>             -> block until the instance's background updates are done
+//	SHUTDOWN                         -> clean stop (datastore.Shutdown; storage.Shutdown), exit 0
+//	EXIT                             -> abrupt exit without any shutdown, exit 0
 func childServer(args []string) {
 	if len(args) < 1 {
 		fmt.Fprintln(os.Stderr, "child server: need directory")
@@ -181,7 +182,11 @@ func childServer(args []string) {
 	if mode == "readonly" || mode == "fullwrite" {
 		rw = "rwmode = \"" + mode + "\"\n"
 	}
-	toml := fmt.Sprintf(`[server]
+	cache := ""
+	if os.Getenv("VERIF_LM_CACHE") != "" {
+		cache = "[cache]\n    [cache.labelmap]\n    size = 64\n"
+	}
+	toml := cache + fmt.Sprintf(`[server]
 httpAddress = ":0"
 rpcAddress = ":0"
 shutdownDelay = 0
